@@ -397,6 +397,7 @@ func (t *tySer) ty(rt reflect.Type) string {
 type valSer struct {
 	ids    map[uintptr]int
 	intern map[string]int
+	unmodelled bool // a value the model has no form for (an interface holding a non-pointer) was met
 }
 
 func sortedKeys(v reflect.Value) []reflect.Value {
@@ -455,6 +456,10 @@ func (s *valSer) val(v reflect.Value, assign bool, path []int, shared *[][]int) 
 			return "(" + atomS("nil") + ")"
 		}
 		d := v.Elem() // *Impl
+		if d.Kind() != reflect.Ptr {
+			s.unmodelled = true // a value implementation (ValImpl): left to the reflection oracle
+			return "(" + atomS("nil") + ")"
+		}
 		return ref(3, d.Pointer(), true, []string{kv(0, d.Elem())})
 	case reflect.Struct, reflect.Array:
 		var fs []string
@@ -543,7 +548,9 @@ func main() {
 					}
 					shS = append(shS, "("+strings.Join(e, " ")+")")
 				}
-				fmt.Printf("CASE %s\t(%s %s %s)\t(%s (%s) %s)\n", t.name, "("+strings.Join(ts.decls, " ")+")", tyS, in, out, strings.Join(shS, " "), numS(handTotal()-before))
+				if !vs.unmodelled {
+					fmt.Printf("CASE %s\t(%s %s %s)\t(%s (%s) %s)\n", t.name, "("+strings.Join(ts.decls, " ")+")", tyS, in, out, strings.Join(shS, " "), numS(handTotal()-before))
+				}
 			}
 			desc := fmt.Sprintf("%#v", orig.Elem().Interface())
 			if len(desc) > 300 {
@@ -623,6 +630,14 @@ func c16(g *Gen) {
 			os.WriteFile(filepath.Join(d, "file.go"), []byte(gp.Src), 0644)
 			dirs = append(dirs, gp.Path)
 		}
+		if i%3 == 1 {
+			// what an earlier, longer output left behind (excluded from loading by its build constraint)
+			for _, gp := range prog {
+				os.WriteFile(filepath.Join(src, gp.Path, "zz_generated.deepcopy.go"),
+					[]byte("// +build !ignore_autogenerated\n\npackage "+gp.Name+"\n\n"+strings.Repeat("var ZZstale = 0 // left over from an earlier, longer output\n", 3000)), 0644)
+			}
+			cls = append(cls, "regenerated-over-longer-output")
+		}
 		a := args.Default().WithoutDefaultFlagParsing()
 		a.InputDirs = dirs
 		a.OutputBase = src
@@ -696,7 +711,7 @@ func c16(g *Gen) {
 		newImpl := "func newImpl(t reflect.Type, r *rand.Rand) reflect.Value {\n"
 		for _, gp := range prog {
 			if strings.Contains(gp.Src, "type Obj interface") {
-				newImpl += fmt.Sprintf("\tif t == reflect.TypeOf((*%s.Obj)(nil)).Elem() {\n\t\tv := r.Intn(100)\n\t\treturn reflect.ValueOf(&%s.Impl{V: &v})\n\t}\n", gp.Name, gp.Name)
+				newImpl += fmt.Sprintf("\tif t == reflect.TypeOf((*%s.Obj)(nil)).Elem() {\n\t\tv := r.Intn(100)\n\t\tif r.Intn(3) == 0 {\n\t\t\treturn reflect.ValueOf(%s.ValImpl{N: v, P: &v})\n\t\t}\n\t\treturn reflect.ValueOf(&%s.Impl{V: &v})\n\t}\n", gp.Name, gp.Name, gp.Name)
 			}
 		}
 		newImpl += "\treturn reflect.Value{}\n}\n"
